@@ -912,6 +912,8 @@ class SignExtend(Kind):
 
     def plan(self, rng, pool):
         a, w = pool.any(1, 60)
+        if w > 1 and rng.random() < 0.06:
+            return {}, [a], [rng.randint(1, w - 1)]      # narrower result: accepted by the constructor, keeps the low bits
         return {}, [a], [w + rng.choice([0, 1, 1, 2, 7, 10])]
 
     def build(self, parent, nm, ins, outs, p):
@@ -1197,10 +1199,13 @@ class Reg(SeqKind):
         en = rng.random() < 0.5
         rs = rng.random() < 0.5
         rv = 0
+        qw = w
+        if w > 2 and rng.random() < 0.05:
+            qw = rng.randint(1, w - 1)          # q narrower than d: the register keeps the low bits
         if rs and rng.random() < 0.5:
-            rv = rng.choice([1, (1 << w) - 1, rng.getrandbits(w)])
+            rv = rng.choice([1, (1 << qw) - 1, rng.getrandbits(qw), rng.getrandbits(qw), -1, -rng.randint(1, 9)])
         ins = [d] + ([pool.pick(1)[0]] if en else []) + ([pool.pick(1)[0]] if rs else [])
-        return {'en': en, 'rs': rs, 'rv': rv}, ins, [w]
+        return {'en': en, 'rs': rs, 'rv': rv}, ins, [qw]
 
     def build(self, parent, nm, ins, outs, p):
         i = 1
